@@ -125,8 +125,12 @@ Parse(form, n) ==
                                   ELSE Stable(n - 1)      \* minor.checked_sub(1), else an error value
       [] OTHER -> Stable(n)
 
-(* the version the user asked for (L1 reading of the string) *)
-Meant(form, n) == IF form = "nightly" THEN Nightly ELSE n
+(* the version the user asked for (L1 reading of the string).  A toolchain that calls     *)
+(* itself 1.N.0-nightly exists before 1.N is released: what is "stable since 1.N" is       *)
+(* stabilised at some point of that window, so the features every 1.N-nightly toolchain    *)
+(* is guaranteed to have are those of 1.(N-1) - that is the version such a string means.   *)
+Meant(form, n) == IF form = "nightly" THEN Nightly
+                  ELSE IF form \in NightlyForms /\ n > 0 THEN n - 1 ELSE n
 
 (* codegen sites: which constructs appear for a flag set, on the trigger header set with   *)
 (* --generate-cstr --use-core --flexarray-dst, layout tests on, ABI overrides               *)
@@ -144,6 +148,22 @@ Emitted(fs) ==
           [] c = "abi:vectorcall" -> "vectorcall_abi" \in fs
           [] c = "ptr_metadata"   -> "ptr_metadata" \in fs
           [] c = "layout_for_ptr" -> "layout_for_ptr" \in fs}
+
+(* ABI sites.  An ABI string reaches the output at six kinds of places; in the code all of  *)
+(* them ask FunctionSig::abi (ir/function.rs), which first picks the ABI - the attribute    *)
+(* clang reports, or an --override-abi whose regex matches the function's name or, for a   *)
+(* function POINTER type, the name of the typedef / field / parameter it belongs to - and  *)
+(* only then applies the feature gate; a refused ABI turns the item into nothing           *)
+(* (function) or an opaque blob (pointer).  UngatedSites = {} is the code; a non-empty set  *)
+(* is the mutant in which that site returns before the gate (sens config).                 *)
+Abis == {"C-unwind", "efiapi", "thiscall", "vectorcall"}
+AbiFlag(a) == CASE a = "C-unwind" -> "c_unwind_abi" [] a = "efiapi" -> "abi_efiapi"
+                [] a = "thiscall" -> "thiscall_abi" [] a = "vectorcall" -> "vectorcall_abi"
+AbiSites == {"fn:attribute", "fn:override", "fnptr:attribute",
+             "fnptr-typedef:override", "fnptr-field:override", "fnptr-param:override"}
+UngatedSites == {}
+Ungated_fnptrOverride == {"fnptr-typedef:override", "fnptr-field:override", "fnptr-param:override"}
+SiteEmits(site, a, fs) == site \in UngatedSites \/ AbiFlag(a) \in fs
 
 (* the L1 entry each flag stands for *)
 FlagConstruct(f) ==
@@ -226,6 +246,9 @@ ConstructMonotone == Accepted /\ tgt.t # Nightly =>
 (***************************************************************************)
 Newer == IF Accepted THEN {c \in Emitted(gen.feats) : ~Allowed(c, MeantV, gen.edition)} ELSE {}
 ConstructSound == Newer = {}
+(* every ABI site is behind the gate of its ABI (must hold of the code's L2: MC_Features.cfg) *)
+SiteSound == Accepted => \A site \in AbiSites, a \in Abis :
+                SiteEmits(site, a, gen.feats) => Allowed("abi:" \o a, MeantV, gen.edition)
 ParseTotal == tgt.out # "panic"
 
 (***************************************************************************)
